@@ -947,7 +947,7 @@ fn check_c18(ch: &mut Chunk<'_>, t: RegLan, rf: &Dfa, rep: &mut Report) -> Vec<S
     let u = ch.u;
     let mut msgs = vec![];
     // which reference states have a non-empty language
-    let live: Vec<bool> = (0..rf.n()).map(|q| !rf.from_state(q).is_empty_lang()).collect();
+    let live: Vec<bool> = rf.live_states();
     let ivs = class_intervals(t);
     let mut chars = boundary_chars(&ivs);
     chars.extend(u.reps.iter().copied());
